@@ -394,6 +394,9 @@ def replay_counts(vals):
     return (len(fails) > 0), ("real %s matrix with n=%d, allele count %d: %s" % (kind, n, c, "; ".join(fails) if fails else "all predicates hold"))
 
 
+AfreqFP.replay = lambda self, vals: replay_counts(vals)
+
+
 def obligations(tier):
     obs = []
     sizes = [(1, 1), (2, 1), (2, 2), (3, 1)] if tier == "quick" else [(1, 1), (1, 2), (2, 1), (2, 2), (3, 1), (3, 2), (4, 1)]
